@@ -198,7 +198,12 @@ PROPS["C15"] = dict(
     rule=("four encodings, all pairs (p, n) with components <= 3/4 for the unary operations and p1, n1, p2, n2 <= 2/3 for "
           "add, sub, mul, under NOR and HNO; inputs are arbitrary, not only canonical, pairs"),
     trusted_base=DATA_TB, assumptions=DATA_ASM,
-    explanation="Bounded in-kernel grid on the generated constants + correspondence/oracle; soundness as C13.")
+    explanation=("Theorems for ALL pairs (p, n), canonical or not, in all four encodings, on the generated constants: simplify, "
+                 "modulus, neg, to_signed, add, sub, mul reduce to the canonical pair of the integer result (Proofs/SignedArith.v: one "
+                 "generic proof over an abstract encoding with is_zero/pred/add/mul specifications, Z-unfolding with induction for "
+                 "simplify; the generated constants are shown by reflexivity to be the generic templates over each encoding's "
+                 "primitives, whose specifications are the C13/C14 theorems); hence NOR and HNO return them (C07). Bounded in-kernel "
+                 "grid kept as evaluation of the model of reduce."))
 PROPS["C16"] = dict(
     suites=["ops:lists", "ops:convert"], oracle_re=r"oracle:C16:", gen=True,
     rule=("nil/cons/head/tail/is_nil of the four list encodings on all lists of length <= 3/4 over 3 values and on "
